@@ -633,6 +633,8 @@ vp('C19', 'fire', 'seeded/C19-imu-columns-by-position/patch.diff', 'round-10 see
 vp('C06', 'fire', 'seeded/C06-antenna-position-written-into-pva/patch.diff', 'round-10 seed C06: antenna position written back into the caller\'s pva')
 v('C18', 'fire', 'transform.py', "    interpolator = interp1d(state.index, state[other_columns].values, axis=0)", "    interpolator = interp1d(state.index, state[other_columns].values, axis=0, kind='nearest')", 'probe: nearest-neighbour instead of linear interpolation')
 v('C18', 'silent', 'transform.py', "    interpolator = interp1d(state.index, state[other_columns].values, axis=0)", "    interpolator = interp1d(state.index, state[other_columns].values, axis=0, kind='linear')", 'kind spelled out')
+v('C19 C16', 'fire', 'transform.py', '    return pd.DataFrame(r_n, index=time, columns=NED_COLS) if is_dataframe else r_n', '    return pd.DataFrame(r_n, columns=NED_COLS) if is_dataframe else r_n', 'probe: returned table without its time index')
+v('C05 C19', 'fire', 'error_model.py', '        return pd.Series(data=np.hstack((lla, velocity_n, rph)), index=pva.index)', '        return pd.Series(data=np.hstack((lla, velocity_n, rph)))', 'survey: corrected Pva returned without labels')
 # ------------------------------------------------------------------ geometry C16 C05 C04 C03 C18
 T = 'transform.py'
 v('C16 C05', 'fire', T, '    rn, _, rp = earth.principal_radii(lla[:, 0], lla[:, 2])\n\n    lla[:, 0] +=',
